@@ -42,6 +42,7 @@ def cases(T):
     cs = []
     def add(name, func, args, claim, **kw):
         kw.setdefault('bounds', ALL)
+        kw.setdefault('setup', lambda sym: __import__('props.contracts', fromlist=['x']).install(sym, sym.m))
         cs.append(Case('%s.%s' % (name, T), func, args, claim, T=T, **kw))
     def P(X, k): return [X.free('p%d' % i) for i in range(k)]
     # ---- Matrix44 set*
@@ -129,7 +130,8 @@ def cases(T):
 
 
 def build(chk):
-    e = EngC(chk, 'builders')
+    from props import contracts
+    e = EngC(chk, 'builders', keep_calls=[contracts.LENGTH_RE])
     for T in ('d', 'f'):
         for c in cases(T):
             e.add(c)
